@@ -4,6 +4,9 @@ manifest stays valid while checks are added)."""
 import json, os
 ROOT = os.path.dirname(os.path.abspath(__file__))
 CHECKS = {
+ "C09": dict(level="exploration", technique="typestate trace automaton per writer instance (online in the monitoring writer + offline over its log) over every drop point x scripted writer failures x orders, hand-written FDTs, malformed histories",
+     text="Every writer the builder hands out is an automaton New->Opened->(write)*->terminal; illegal edges are recorded at the call that makes them. Workloads: each small session x 9 writer scripts x 4 orders x EVERY drop point, hand-written FDTs without FEC-OTI (writer created inside push) with empty/non-empty objects and lying Content-Length, and 60k (quick) malformed histories with failing writers. Offline checks add prefix-of-content, complete-implies-content/length/MD5 and terminated-at-drop. Held on the histories run.",
+     note="trusted: monitoring writer; per-instance automaton (several writers per TOI are legal)", ref="DESIGN.md §5 C09"),
  "C04": dict(level="exploration", technique="hostile-input execution in crash-isolated children under overflow/debug-assert instrumentation, step-budget hang detector and counting/capping allocator; exhaustive <=3-byte strings and single-byte header substitutions, field-aware edits through an independent encoder, FDT XML rewriting, mutation sequences; probe-session usability oracle",
      text="Seven classes of hostile packet sequences (about 18 M pushes quick) run against the real MultiReceiver in single-threaded child processes; the parent attributes panics, step-budget trips, allocation-cap hits and aborts to the sequence in flight and restarts. After every sequence two valid probe sessions must still be delivered. Thorough adds all 255 substitution values, 10x more XML/sequence cases, ASan/Miri/valgrind sub-runs. Held on the sequences executed.",
      note="trusted: counting allocator numbers, step hooks at the loops listed in MANIFEST.hooks commits; dependencies are exercised through flute only", ref="DESIGN.md §5 C04"),
